@@ -258,7 +258,7 @@ def run_model(lines, shards=None):
     chunks = [lines[i::shards] for i in range(shards)]
     procs = []
     for ch in chunks:
-        p = subprocess.Popen(['bash', '-c', 'ulimit -s unlimited 2>/dev/null; exec "$0"', MODEL_RUN],
+        p = subprocess.Popen(['bash', '-c', 'ulimit -s 4000000 2>/dev/null; exec "$0"', MODEL_RUN],
                              stdin=subprocess.PIPE, stdout=subprocess.PIPE)
         procs.append(p)
     import threading
